@@ -17,3 +17,90 @@ Theorem C15_model : forall cfg w e cmd um,
   C15.step_spec cfg w (LC.view_of_model cfg w e cmd um) = true.
 Proof. exact C15_model_proof. Qed.
 Print Assumptions C15_model.
+
+(* ---- command-line part: the -p switch is honoured wherever it stands (Model/Args.v) ---- *)
+From LC Require Import Model.Args Proofs.ArgsP.
+
+(* (a) structured command line  pre ++ [cmd] ++ post:  pre = switches of the global flag set
+   (-v -p -debug -force, -config X, -basepath X), cmd a command of the command table, post =
+   words, -v -p -debug -force, the command's own boolean switches, the command's own string
+   switches with their value.  If -p occurs anywhere among them and the command is run, the
+   pretender is installed. *)
+Theorem C15_pretend_installed : forall pre cmd post locals lo hi o c a l,
+  forallb pre_ok pre = true ->
+  command_info cmd = Some (locals, lo, hi) ->
+  forallb (local_ok locals) post = true ->
+  existsb is_p (pre ++ post) = true ->
+  parse_main (render_toks pre ++ [cmd] ++ render_toks post) = MRun o c a l ->
+  o_p o = true.
+Proof. exact pretend_installed. Qed.
+Print Assumptions C15_pretend_installed.
+
+(* the same for any switches the merged flag sets know (plain names) *)
+Theorem C15_pretend_installed_gen : forall pre cmd post locals lo hi o c a l,
+  forallb (flag_ok global_flags) pre = true ->
+  command_info cmd = Some (locals, lo, hi) ->
+  forallb (post_ok (common_switches ++ locals)) post = true ->
+  existsb is_p (pre ++ post) = true ->
+  parse_main (render_toks pre ++ [cmd] ++ render_toks post) = MRun o c a l ->
+  o_p o = true.
+Proof. exact pretend_installed_gen. Qed.
+Print Assumptions C15_pretend_installed_gen.
+
+(* in the vocabulary of the process-level cases (Cases/C15.v: p_wf, has_p) *)
+Theorem C15_pretend_installed_pcase : forall p o c a l,
+  C15.p_wf p = true -> p_known p = true -> C15.has_p p = true ->
+  parse_main (C15.p_argv p) = MRun o c a l -> o_p o = true.
+Proof. exact pretend_installed_pcase. Qed.
+Print Assumptions C15_pretend_installed_pcase.
+
+(* what is run is what was written: command word, words in order, local assignments in order,
+   options = all assignments folded left to right *)
+Theorem C15_structured_run : forall pre cmd post locals lo hi o c a l,
+  forallb pre_ok pre = true ->
+  command_info cmd = Some (locals, lo, hi) ->
+  forallb (local_ok locals) post = true ->
+  parse_main (render_toks pre ++ [cmd] ++ render_toks post) = MRun o c a l ->
+  c = cmd /\ a = toks_words post /\ l = toks_asg post
+  /\ o = fold_left apply_assign (toks_asg (pre ++ post)) (MkO false false false false).
+Proof. exact structured_run. Qed.
+Print Assumptions C15_structured_run.
+
+(* (b) parse_main gives parse_cmd_args fuel S (length rest); with that fuel the result None
+   can only come from a failing FlagSet.Parse on some remainder of the arguments, for every
+   flag set, argument list and accumulator *)
+Theorem C15_args_total : forall fs rest first words asg,
+  parse_cmd_args (S (length rest)) fs rest first words asg = None ->
+  exists pre w rest', rest = pre ++ w :: rest' /\ fparse fs rest' [] = PErr.
+Proof. exact args_total. Qed.
+Print Assumptions C15_args_total.
+
+Theorem C15_args_total_contra : forall fs rest first words asg,
+  (forall pre w rest', rest = pre ++ w :: rest' -> fparse fs rest' [] <> PErr) ->
+  parse_cmd_args (S (length rest)) fs rest first words asg <> None.
+Proof. exact args_total_contra. Qed.
+Print Assumptions C15_args_total_contra.
+
+(* more fuel changes nothing; one unit per argument is enough *)
+Theorem C15_args_fuel_irrelevant : forall fs rest first words asg extra,
+  parse_cmd_args (S (length rest) + extra) fs rest first words asg
+  = parse_cmd_args (length rest) fs rest first words asg.
+Proof. exact args_fuel_irrelevant. Qed.
+Print Assumptions C15_args_fuel_irrelevant.
+
+(* (c) whatever the argv: a command that is run is in the command table and the number of its
+   arguments is within its arity *)
+Theorem C15_run_means_wellformed : forall argv o c words l,
+  parse_main argv = MRun o c words l ->
+  exists locals lo hi, command_info c = Some (locals, lo, hi)
+                       /\ (lo <= length words)%nat /\ (length words <= hi)%nat.
+Proof. exact run_means_wellformed. Qed.
+Print Assumptions C15_run_means_wellformed.
+
+Theorem C15_run_command_word : forall argv o c words l,
+  parse_main argv = MRun o c words l ->
+  exists g rest, fparse global_flags argv [] = POk g rest
+                 /\ c = match rest with c :: _ => c | [] => bs "status" end
+                 /\ In c command_names.
+Proof. exact run_command_word. Qed.
+Print Assumptions C15_run_command_word.
